@@ -563,6 +563,63 @@ func runC10(p *core.Prog, r *core.Report) {
 		})
 		r.Check(ok, "C10.R3", "listSnapshots/kind", "files with Partial set go to Partials, the others to FullKVFiles", "classification by Partial not found or inverted", p.Pos(fn.Pos()))
 	})
+	r.Guard("C10.R2", "file-kind", "full and partial file descriptors are not mixed up", func() {
+		complete, partial := p.FuncObj(pkgStore, "NewCompleteFileInfo"), p.FuncObj(pkgStore, "NewPartialFileInfo")
+		// the two constructors have the same signature; each store kind saves and loads through its own
+		for _, w := range []struct {
+			fn           string
+			want, forbid *types.Func
+		}{{"FullKV.Save", complete, partial}, {"PartialKV.Save", partial, complete}} {
+			fn := p.Func(pkgStore, w.fn)
+			okW := len(core.FindInstrs(fn, core.IsCallTo(w.want))) > 0 && len(core.FindInstrs(fn, core.IsCallTo(w.forbid))) == 0
+			for _, c := range core.FindInstrs(fn, core.IsCallTo(w.want)) {
+				args := c.(ssa.CallInstruction).Common().Args
+				f1, _ := core.LoadedField(core.SkipConv(args[1]))
+				okArgs := f1 != nil && (f1.Name() == "moduleInitialBlock" || f1.Name() == "initialBlock") && core.SkipConv(args[2]) == ssa.Value(fn.Params[1])
+				r.Check(okArgs, "C10.R2", w.fn+"/file-range", "the file is named after the store's own first block and the boundary block being saved", "constructor arguments are not (store's initial block, end boundary parameter)", p.Pos(c.Pos()))
+			}
+			r.Check(okW, "C10.R2", w.fn+"/file-kind", "the snapshot is named with the constructor of its own kind (full: <end>-<module init>.kv, partial: <end>-<start>.partial)", "wrong or missing file-info constructor", p.Pos(fn.Pos()))
+		}
+		nLoads := 0
+		bad := ""
+		loadFull, loadPartial := p.FuncObj(pkgStore, "FullKV.Load"), p.FuncObj(pkgStore, "PartialKV.Load")
+		for _, fn := range p.RepoFunctions() {
+			core.Instrs(fn, func(in ssa.Instruction) {
+				c := core.CalleeOf(in)
+				if c != loadFull && c != loadPartial {
+					return
+				}
+				nLoads++
+				args := in.(ssa.CallInstruction).Common().Args
+				src := core.Trace(args[len(args)-1], 1)
+				if c == loadFull && src.HasCall(partial) {
+					bad = "FullKV.Load of a partial file descriptor at " + p.Pos(in.Pos())
+				}
+				if c == loadPartial && src.HasCall(complete) {
+					bad = "PartialKV.Load of a full file descriptor at " + p.Pos(in.Pos())
+				}
+			})
+		}
+		r.Check(nLoads >= 3 && bad == "", "C10.R2", "Load/file-kind", "a full store is only loaded from a full-snapshot descriptor and a partial store from a partial descriptor", bad, "")
+		// the constructors name the file with the matching printer and set the matching flag
+		for _, w := range []struct {
+			fn      *types.Func
+			printer string
+			flag    string
+		}{{complete, "FullStateFileName", "false"}, {partial, "PartialFileName", "true"}} {
+			fn := p.Func(pkgStore, w.fn.Name())
+			okP := len(core.FindInstrs(fn, core.IsCallTo(p.FuncObj(pkgStore, w.printer)))) > 0
+			okF := false
+			for _, al := range core.AllocsOf(fn, p.Named(pkgStore, "FileInfo")) {
+				for _, v := range core.LiteralFields(al)["Partial"] {
+					if k, ok := v.(*ssa.Const); ok && k.Value != nil && k.Value.ExactString() == w.flag {
+						okF = true
+					}
+				}
+			}
+			r.Check(okP && okF, "C10.R2", w.fn.Name()+"/kind", "the constructor names the file with the printer of its kind and sets Partial accordingly", fmt.Sprintf("printer=%v flag=%v", okP, okF), p.Pos(fn.Pos()))
+		}
+	})
 	r.MinInstances("C10.R1", 20)
 	r.MinInstances("C10.R3", 4)
 }
